@@ -184,6 +184,24 @@ def chmodOctal (t : T) (p : FsPath) (dirPerm filePerm : Option Nat) (recursive :
         | _, _, _ => kv
       else kv) })
 
+/-- symbolic chmod on the selected entries: every selected non-link node gets the mode the grammar
+    prescribes for its kind; a malformed expression is an error and changes nothing -/
+def chmodSym (t : T) (p : FsPath) (sym : List Char) (recursive : Bool) : R Unit × T :=
+  match get t p with
+  | none => (.err (some .doesNotExist), t)
+  | some _ =>
+    match parseExpr sym with
+    | none => (.err none, t)
+    | some cs =>
+      let sel (k : FsPath) : Bool := k = p || (recursive && isProperPrefix p k && isDir t p)
+      (.ok (), { t with nodes := t.nodes.map (fun kv =>
+        if sel kv.1 then
+          match kv.2.kind with
+          | .dir => (kv.1, { kv.2 with perm := applyExpr ⟨true, false, false⟩ cs kv.2.mode - typeBits .dir })
+          | .file => (kv.1, { kv.2 with perm := applyExpr ⟨false, true, false⟩ cs kv.2.mode - typeBits .file })
+          | .link _ => kv
+        else kv) })
+
 def chown (t : T) (p : FsPath) (uid gid : Option Nat) (recursive : Bool) : R Unit × T :=
   match get t p with
   | none => (.err (some .doesNotExist), t)
